@@ -26,6 +26,7 @@ MUTS = {
   ('m6_current_uses_voltage', 'Circuit/solution.py', "        currents = [solution.get_current(component_id) for solution in self._solutions]\n        return np.vectorize", "        currents = [solution.get_voltage(component_id) for solution in self._solutions]\n        return np.vectorize"),
   ('m7_gate_off_by_factor', 'Circuit/transformers.py', "    if np.abs(w-cs_w) > w_resolution:\n        element = elm.open_circuit(current_source.id)\n    return ntw.Branch(\n        current_source.nodes[0],\n        current_source.nodes[1],\n        element\n    )\n\ndef ac_current_source", "    if np.abs(w-cs_w) > 1000*w_resolution:\n        element = elm.open_circuit(current_source.id)\n    return ntw.Branch(\n        current_source.nodes[0],\n        current_source.nodes[1],\n        element\n    )\n\ndef ac_current_source"),
   ('m8_unsorted', 'Circuit/circuit.py', "    for w in sorted([w for c in circuit.components for w in frequencies(c)]):", "    for w in [w for c in circuit.components for w in frequencies(c)]:"),
+  ('m11_harmonic_index_truncated', 'Circuit/transformers.py', "    n = np.round(w/w0)\n    delta_n = np.abs(w/w0 - n)\n    if delta_n > w_resolution/w0:\n        return ntw.Branch(\n            source.nodes[0],\n            source.nodes[1],\n            elm.short_circuit(source.id))", "    n = int(w/w0)\n    delta_n = np.abs(w/w0 - n)\n    if delta_n > w_resolution/w0:\n        return ntw.Branch(\n            source.nodes[0],\n            source.nodes[1],\n            elm.short_circuit(source.id))"),
   ('m9_merge_only_equal', 'Circuit/circuit.py', "w - distinct_frequencies[-1] > w_resolution:", "w - distinct_frequencies[-1] > 0:"),
   ('m10_dc_line_halved', 'Circuit/solution.py', "values[:len(self.w)-len(self.w[ac])], values[ac]/2))", "values[:len(self.w)-len(self.w[ac])]/2, values[ac]/2))"),
  ]}
